@@ -129,7 +129,11 @@ func (st *geoState) showFiles() string {
 	var parts []string
 	for _, f := range st.files {
 		if m, ok := f.Storage.(*geoMem); ok {
-			parts = append(parts, hexs(m.data))
+			if len(m.data) == 0 {
+				parts = append(parts, "_") // empty data file (distinct from "-" = no files)
+			} else {
+				parts = append(parts, hexs(m.data))
+			}
 		} else {
 			parts = append(parts, "P")
 		}
